@@ -97,5 +97,9 @@ func (p *Parser) ParseSignedDataForDeactivate(compactJWS string) (*model.Deactiv
 		return nil, fmt.Errorf("validate signed data for deactivate: %s", err.Error())
 	}
 
+	if err := validateAlgorithmForKey(jws.ProtectedHeaders, signedData.RecoveryKey); err != nil {
+		return nil, fmt.Errorf("validate signed data for deactivate: %s", err.Error())
+	}
+
 	return signedData, nil
 }
